@@ -188,6 +188,15 @@ func c11Exec(w *c11World, prog []c11Node) (flat []c11Flat, mustReject bool, ambi
 					flat = append(flat, c11Flat{Method: mm, Path: prefix + n.Path, IDs: all})
 				}
 				w.f.Routes(n.Path, strings.Join(c08KnownMethods, ","), w.hs(own)...)
+			case "routes-unknown-in-the-middle":
+				// a method list with a name that is no HTTP method behind two that are (inside recover{...} only):
+				// GET and POST are registered, then the call is refused; PUT never is
+				own := ids(n.NH)
+				all := append(append([]int{}, outer...), own...)
+				for _, mm := range []string{"GET", "POST", "FETCH", "PUT"} {
+					flat = append(flat, c11Flat{Method: mm, Path: prefix + n.Path, IDs: all})
+				}
+				w.f.Routes(n.Path, "GET,POST,FETCH,PUT", w.hs(own)...)
 			case "routes-star":
 				// the wild card as the method list of Routes, and as a later method string: every method, as Any
 				own := ids(n.NH)
@@ -552,6 +561,11 @@ func c11FlattenOnly(prog []c11Node) (flat []c11Flat, mustReject, amb bool) {
 				for _, mm := range c08KnownMethods {
 					flat = append(flat, c11Flat{Method: mm, Path: prefix + n.Path, IDs: all})
 				}
+			case "routes-unknown-in-the-middle":
+				all := append(append([]int{}, outer...), ids(n.NH)...)
+				for _, mm := range []string{"GET", "POST", "FETCH", "PUT"} {
+					flat = append(flat, c11Flat{Method: mm, Path: prefix + n.Path, IDs: all})
+				}
 			case "routes-star":
 				all := append(append([]int{}, outer...), ids(n.NH)...)
 				for _, mm := range c08KnownMethods {
@@ -756,6 +770,12 @@ func c11Programs(thorough bool) [][]c11Node {
 			progs = append(progs, []c11Node{lf}, []c11Node{{Kind: "autohead-on"}, lf}, []c11Node{{Kind: "group", Path: "/g", NH: 1, Children: []c11Node{lf, {Kind: "get", Path: "/v", NH: 1}}}, {Kind: "post", Path: "/v", NH: 1}},
 				[]c11Node{{Kind: "group", Path: "/{p}", NH: 2, Children: []c11Node{{Kind: "group", Path: "/g", NH: 0, Children: []c11Node{lf}}}}})
 		}
+	}
+	// a Routes call whose method list is refused half way, recovered, flat and inside groups
+	for _, pth := range []string{"/a", "/{x}"} {
+		t := c11Node{Kind: "try", Children: []c11Node{{Kind: "routes-unknown-in-the-middle", Path: pth, NH: 1}}}
+		progs = append(progs, []c11Node{t}, []c11Node{t, {Kind: "get", Path: "/v", NH: 1}}, []c11Node{{Kind: "group", Path: "/g", NH: 1, Children: []c11Node{t, {Kind: "post", Path: "/v", NH: 1}}}, {Kind: "get", Path: "/v", NH: 1}},
+			[]c11Node{{Kind: "post", Path: pth, NH: 1}, t})
 	}
 	// AutoHead switched several times in a row (the switch is a setting, not a counter): every sequence of up
 	// to four switches, then a Get and a Combo, flat and inside a group
